@@ -48,6 +48,9 @@ def agree(case, impl, model):
         return model == want
     if head == "display":
         return impl == model
+    if head == "m_rand":
+        import C16
+        return C16.agree(case, impl, model)
     return None
 
 
@@ -114,6 +117,10 @@ def gen_rounds(seed, tier, run):
     for a in atoms:
         out3.append(f"list_text {sarr([1], [a])}")
     run(out3)
+    # the flat, single and constructor macros agree with the corresponding functions (same cases as C16's functions,
+    # expected values from the same Coq constructors)
+    import C16
+    run([l for l in C16.gen(seed, "quick") if l.startswith("m_")])
 
 
 def extra_checks(cases, impl, model):
